@@ -139,7 +139,8 @@ class C06(Prop):
             'truncated after every unit; (vi) one fault of a known kind (unclosed '
             'environment / math region, unclosed argument or group, nameless '
             '\\begin, \\item in math) in 8 contexts: the diagnostic class the '
-            'statement names for it. non-trivial = length >= 2 ; distinct '
+            'statement names for it; (vii) 16 kinds of long flat input (1500-3000 '
+            'siblings / arguments / bracket-brace alternations at depth 1). non-trivial = length >= 2 ; distinct '
             '= by content')
     assumptions = (
         'diagnostic = EOFError/TypeError/AssertionError raised by an explicit '
@@ -195,6 +196,24 @@ class C06(Prop):
                 k += 1
                 if want(k):
                     yield k, {'s': m, 'w': 'fault:' + kind}
+        # (vii) long flat inputs: the statement bounds the nesting depth, not
+        # the length - thousands of siblings / arguments / alternations at
+        # depth 1 must not exhaust the interpreter's stack either
+        reps = (1500, 3000) if not q else (1500,)
+        for n_ in reps:
+            for name_, s_ in (
+                    ('alt-or', '\\cmd' + '[o]{r}' * n_), ('alt-ro', '\\cmd' + '{r}[o]' * n_),
+                    ('groups', '{a}' * n_), ('commands', '\\x' * n_), ('math', '$a$ ' * n_),
+                    ('args', '\\cmd' + '{a}' * n_), ('comments', '%c\n' * n_),
+                    ('items', '\\begin{itemize}' + '\\item a' * n_ + '\\end{itemize}'),
+                    ('envs', '\\begin{a}x\\end{a}' * (n_ // 3)), ('brackets', '[' * n_),
+                    ('closers', ']' * n_ + '}'), ('paragraphs', 'a\n\n' * n_),
+                    ('item-args', '\\begin{itemize}\\item' + '[o]{r}' * n_ + '\\end{itemize}'),
+                    ('env-args', '\\begin{a}' + '{r}[o]' * n_ + 'x\\end{a}'),
+                    ('escapes', '\\%\\$' * n_), ('text', 'lorem ipsum ' * (n_ * 4))):
+                k += 1
+                if want(k):
+                    yield k, {'s': s_, 'w': 'flat:' + name_}
         # (vi) which diagnostic for which fault: one fault of a known kind
         # in every context; strict mode must raise exactly the class the
         # statement names for it
@@ -288,6 +307,8 @@ class C06(Prop):
             ctx.count('outcome:%s:tol%d' % (
                 kind if kind != 'diagnostic' else type(obj).__name__, tol))
             ctx.count('workload:' + p['w'].split(':')[0])
+            if p['w'].startswith('flat'):
+                ctx.seen('flat_kind', p['w'])
             if p['w'].startswith('tower'):
                 ctx.maxi('max:tower_depth', p.get('depth', 0))
                 ctx.seen('tower_kind', p['w'])
@@ -309,7 +330,7 @@ class C06(Prop):
         return fails
 
     def shrink(self, p, still_fails):
-        if len(p['s']) > 3000 or p['w'].startswith('tower') or p['w'] in ('growth', 'diag-class'):
+        if len(p['s']) > 3000 or p['w'].startswith(('tower', 'flat')) or p['w'] in ('growth', 'diag-class'):
             return p
         return common.shrink_text(p, still_fails, key='s', budget=250)
 
@@ -324,6 +345,8 @@ class C06(Prop):
             g.append('progress monitors evaluated too rarely')
         if c.get('loop_iterations_observed', 0) < 1000000:
             g.append('loop-iteration monitor observed fewer than 10^6 backward jumps')
+        if len(m['sets'].get('flat_kind', ())) < 16:
+            g.append('not every kind of long flat input was run')
         if c.get('diag_class_checked', 0) < 400:
             g.append('diagnostic-class oracle evaluated fewer than 400 times')
         if c.get('growth_shapes_measured', 0) < 500:
